@@ -169,14 +169,20 @@ impl UnitRunner for C14 {
           }
           // membership of every universe element
           for e in 0..nel {
+            // every spelling of the two operands: element as literal / variable, set as variable / literal
+            let has_var = s.run(&format!("e{} := {}", e, u.elems[e])).is_value();
             for (op, neg) in [("∈", false), ("∉", true)] {
-              out.evaluations += 1;
-              let om = s.run(&format!("m{}{} := {} {} a", e, if neg { "n" } else { "" }, u.elems[e], op));
-              if let Outcome::Value(Canon::Bool(b)) = &om {
-                out.nontrivial += 1;
-                let isin = a_cls.contains(&u.class[e]);
-                if *b != (isin != neg) { out.fail(format!("C14|wrong-result|{}:{}", op, uname), format!("{}; {} {} a", case, u.elems[e], op), format!("got {}", b)); }
-              } else if let Outcome::Panic(m) = &om { out.fail(format!("C14|panic|{}:{}", op, uname), format!("{}; {} {} a", case, u.elems[e], op), m.clone()); }
+              let mut spellings: Vec<(&str, String)> = vec![("literal-variable", format!("{} {} a", u.elems[e], op)), ("literal-literal", format!("{} {} {}", u.elems[e], op, a_lit))];
+              if has_var { spellings.push(("variable-variable", format!("e{} {} a", e, op))); spellings.push(("variable-literal", format!("e{} {} {}", e, op, a_lit))); }
+              for (si, (form, expr)) in spellings.iter().enumerate() {
+                out.evaluations += 1;
+                let om = s.run(&format!("m{}{}x{} := {}", e, if neg { "n" } else { "" }, si, expr));
+                if let Outcome::Value(Canon::Bool(b)) = &om {
+                  out.nontrivial += 1;
+                  let isin = a_cls.contains(&u.class[e]);
+                  if *b != (isin != neg) { out.fail(format!("C14|wrong-result|{}:{}{}", op, uname, if si == 0 { String::new() } else { format!(":{}", form) }), format!("{}; e{} := {}; r := {}", case, e, u.elems[e], expr), format!("got {}", b)); }
+                } else if let Outcome::Panic(m) = &om { out.fail(format!("C14|panic|{}:{}", op, uname), format!("{}; {}", case, expr), m.clone()); }
+              }
             }
           }
         }
@@ -282,7 +288,7 @@ impl Check for C14 {
   fn unit_budget(&self, _t: Tier) -> Duration { Duration::from_secs(120) }
   fn drive(&mut self, tier: Tier, cfg: &PoolCfg, rep: &mut Report) {
     let nu = self.us.len() as u64;
-    rep.rule = format!("{} element universes (f64, u8, i64, r64 with equal fractions, strings, bools, tuples, nested sets written in different orders, signed zeros); every sequence of length <= {} over a universe written as a set literal (all insertion orders, repeats included), the same via matrix conversion, an identity comprehension and comprehension shapes with one or two generators and filters (two generators over one set, membership and equality filters for every universe; numeric filters, many-to-one, constant and linear maps, sums, pairs, joins over two generators for f64), set/size, membership of every universe element, \
+    rep.rule = format!("{} element universes (f64, u8, i64, r64 with equal fractions, strings, bools, tuples, nested sets written in different orders, signed zeros); every sequence of length <= {} over a universe written as a set literal (all insertion orders, repeats included), the same via matrix conversion, an identity comprehension and comprehension shapes with one or two generators and filters (two generators over one set, membership and equality filters for every universe; numeric filters, many-to-one, constant and linear maps, sums, pairs, joins over two generators for f64), set/size, membership of every universe element in every spelling (element as literal / variable, set as variable / literal), \
       and every ordered pair of such sets x 8 operators (union, intersection, difference, symmetric difference, subset, superset, strict subset, strict superset), plus cross-kind operand pairs; evaluations = statements evaluated; non-trivial = statements that produced a value judged against the mathematical definition", nu, self.maxlen());
     rep.assumptions = vec!["element identity is value equality: 0.0 = -0.0, 1/2 = 2/4, nested sets are unordered, tuples compare elementwise".into(), "iteration order and the element kind recorded for an empty set are not judged".into()];
     rep.cov("bounds", json!({"universes": self.us.iter().map(|u| u.name).collect::<Vec<_>>(), "max_sequence_length": self.maxlen()}));
